@@ -94,7 +94,7 @@ int main(int argc, char** argv)
       g_guard.vec = &v;
       install_crash_guard();
     }
-    Report r = info.fork_per_case ? execute_forked(v, info.watchdog_ms * 4) : execute_inprocess(v);
+    Report r = info.fork_per_case ? execute_forked(v, static_cast<unsigned>(param_int(p, "watchdog_ms", info.watchdog_ms)) * 4) : execute_inprocess(v);
     g_guard.vec = nullptr;
     std::printf("%s", r.render.c_str());
     if (r.failed) { std::printf("REPLAY-FAIL: %s\n", r.message.c_str()); return 1; }
@@ -156,7 +156,7 @@ int main(int argc, char** argv)
                           if (sel > a.shrink_budget) { ++shrink_skipped; return; }
                         }
                         g_guard.vec = &v;
-                        Report r = info.fork_per_case ? execute_forked(v, info.watchdog_ms) : execute_inprocess(v);
+                        Report r = info.fork_per_case ? execute_forked(v, static_cast<unsigned>(param_int(a.params, "watchdog_ms", info.watchdog_ms))) : execute_inprocess(v);
                         g_guard.vec = nullptr;
                         st.account(r);
                         if (r.inconclusive && !a.replay_out.empty() && st.inconclusive == 1)
